@@ -195,7 +195,8 @@ Proof.
     + destruct m; try apply framed_fail.
       * unfold string_merge. apply framed_bind; [apply framed_len_tail|]. intros v.
         destruct (utf8_valid _); [apply framed_ret|apply framed_fail].
-      * apply framed_len_tail.
+      * unfold faststr_merge. apply framed_bind; [apply framed_len_tail|]. intros v.
+        destruct (utf8_valid _); [apply framed_ret|apply framed_fail].
       * apply framed_len_tail.
 Qed.
 
